@@ -280,7 +280,17 @@ def rule_uncg(ctx, py, R="C16.UNCG"):
             if isinstance(p, ast.For):
                 loops[pyfe.src(p.target)] = pysym.isrc(p.iter, f, stop=KEEP)
             p = pyfe.parent(p)
-        idx = pysym.poly_of(pysym.frat(tgt.slice, f, stop=set(loops) | KEEP))
+        # a vectorised store `data[base + np.array(members)] = v` writes, for every j of `members`, data[base + j]
+        sl = pysym.inline(tgt.slice, f, stop=set(loops) | KEEP)
+
+        class _Vec(ast.NodeTransformer):
+            def visit_Call(self_, c):
+                if pyfe.call_name(c) in ("np.array", "np.asarray", "numpy.array") and len(c.args) == 1 and "j" not in loops:
+                    loops["j"] = pyfe.src(c.args[0])
+                    return ast.Name(id="j", ctx=ast.Load())
+                return self_.generic_visit(c)
+        sl = _Vec().visit(sl)
+        idx = pysym.poly_of(pysym.rat(sl))
         want = Poly.sym("n") * Poly.sym("state_size") + Poly.sym("s") * Poly.sym("ncg_space.size()") + Poly.sym("j")
         ctx.check(idx == want and loops.get("j") == "cg_nodes[node_index]", R, tgt, f._qual,
                   pyfe.src(tgt)[:80], "[sample][species][member cell j of the group]",
